@@ -114,6 +114,9 @@ func (x *Ctx) Excluded(id string) { x.excluded[id] = true }
 
 // Logf appends to the case's history, printed when the case fails.
 func (x *Ctx) Logf(format string, args ...any) {
+	if traceAll {
+		fmt.Fprintf(os.Stderr, "TRACE "+format+"\n", args...)
+	}
 	if len(x.log) < 4000 {
 		x.log = append(x.log, fmt.Sprintf(format, args...))
 	}
@@ -123,6 +126,12 @@ func (x *Ctx) Logf(format string, args ...any) {
 func (x *Ctx) Sample(v any) { x.sample = v }
 
 // ---------------------------------------------------------------------------
+
+// traceAll (VERIF_TRACE=1, debugging only): histories are written to stderr as they happen.
+var traceAll = os.Getenv("VERIF_TRACE") != ""
+
+// Tracing reports whether VERIF_TRACE is set.
+func Tracing() bool { return traceAll }
 
 type knownFinding struct {
 	ID       string `json:"id"`
